@@ -519,11 +519,14 @@ func (l *PartitionLog) Read(ctx context.Context, offset int64, maxBytes int32) (
 		// Hold l.mu across both fallbacks so an in-flight flush cannot move
 		// batches from the buffer into flushingBatches (or commit a segment)
 		// between the two checks.
-		body := l.buffer.RecordsFrom(offset, maxBytes)
-		fromFlushWindow := false
+		// The in-flight batches are older than anything in the buffer, so they
+		// must be consulted first: a batch appended while the flush is uploading
+		// has a higher offset and would otherwise be returned for a read that
+		// asks for an offset inside the batches being flushed.
+		body := recordsFromBatches(l.flushingBatches, offset, maxBytes)
+		fromFlushWindow := len(body) > 0
 		if len(body) == 0 {
-			body = recordsFromBatches(l.flushingBatches, offset, maxBytes)
-			fromFlushWindow = len(body) > 0
+			body = l.buffer.RecordsFrom(offset, maxBytes)
 		}
 		l.mu.Unlock()
 		if len(body) > 0 {
